@@ -227,6 +227,17 @@ func checkMulticode(g *oracle.G, in graph.Graph, rec *Rec) error {
 	if p := try(func() { d = graph.MulticodeDecode(append([]byte{}, enc...)) }); p != nil {
 		return fmt.Errorf("MulticodeDecode(%v) panicked: %v", clipBytes(enc), p)
 	}
+	// a record obtained earlier stays what it was when other graphs are encoded afterwards (records are collected
+	// and concatenated into one stream)
+	keep := append([]byte{}, enc...)
+	for _, other := range []*oracle.G{mPath(3), mComplete(4), oracle.New(2)} {
+		if o := graph.MulticodeEncode(denseOf(other)); !bytes.Equal(o, oracle.RefMulticode(other)) {
+			return fmt.Errorf("MulticodeEncode of a small fixed graph = %v", clipBytes(o))
+		}
+	}
+	if !bytes.Equal(enc, keep) {
+		return fmt.Errorf("the record %v returned by MulticodeEncode changed to %v when other graphs were encoded afterwards", clipBytes(keep), clipBytes(enc))
+	}
 	return sameAs(fmt.Sprintf("MulticodeDecode(%v)", clipBytes(enc)), d, g)
 }
 
@@ -485,6 +496,43 @@ func checkMultiCase(c multiCase, rec *Rec) error {
 	return nil
 }
 
+// decodedIsOwn: the graph a decoder returns belongs to the caller. A second decoding of the same string is taken, the
+// second result is grown and edited, and the FIRST result must still be what it was; a third decoding must again give
+// the original graph.
+func decodedIsOwn(format, s string, first graph.Graph) error {
+	decode := func() (graph.EditableGraph, error) {
+		if format == "graph6" {
+			return graph.Graph6Decode(s)
+		}
+		return graph.Sparse6Decode(s)
+	}
+	before, err := wellFormed(fmt.Sprintf("%sDecode(%q)", format, s), first)
+	if err != nil {
+		return err
+	}
+	var second graph.EditableGraph
+	var derr error
+	if p := try(func() {
+		second, derr = decode()
+		if derr == nil {
+			second.AddVertex([]int{})
+			second.AddVertex([]int{0})
+			second.AddEdge(0, 1)
+			second.RemoveVertex(0)
+		}
+	}); p != nil || derr != nil {
+		return fmt.Errorf("%sDecode(%q): a second decoding followed by edits of its result failed: %v %v", format, s, p, derr)
+	}
+	if err := sameAs(fmt.Sprintf("the first result of %sDecode(%q) after a second result was edited", format, s), first, before); err != nil {
+		return err
+	}
+	var third graph.EditableGraph
+	if p := try(func() { third, derr = decode() }); p != nil || derr != nil {
+		return fmt.Errorf("%sDecode(%q): a third decoding failed: %v %v", format, s, p, derr)
+	}
+	return sameAs(fmt.Sprintf("%sDecode(%q) after the result of an earlier decoding was edited", format, s), third, before)
+}
+
 // ---- Pruefer ----------------------------------------------------------------------------------
 
 type pruferCase struct {
@@ -724,7 +772,7 @@ func checkDecodeCase(c decodeCase, rec *Rec) error {
 			if derr != nil || gr.N() != 0 {
 				return fmt.Errorf("Graph6Decode(%q): documented to give the empty graph, got err=%v", s, derr)
 			}
-			return nil
+			return decodedIsOwn(c.Format, s, gr)
 		}
 		if derr == nil {
 			return fmt.Errorf("%sDecode(%q) succeeded (n=%d) although the size field is missing, incomplete or contains bytes outside 63..126", c.Format, s, gr.N())
@@ -768,6 +816,11 @@ func checkDecodeCase(c decodeCase, rec *Rec) error {
 		}
 		if sum != 2*gr.M() {
 			return fmt.Errorf("%sDecode(%q): M()=%d but degree sum %d", c.Format, s, gr.M(), sum)
+		}
+	}
+	if n <= 40 {
+		if err := decodedIsOwn(c.Format, s, gr); err != nil {
+			return err
 		}
 	}
 	// re-encode and decode again: same graph
